@@ -186,6 +186,30 @@ func (f *frame) lookupVar(name string, b *ssa.BasicBlock, phiOverride map[*ssa.P
 	return Val{}, false
 }
 
+// lookupVarAt resolves a source variable at instruction idx of block b.
+func (f *frame) lookupVarAt(name string, b *ssa.BasicBlock, idx int) (Val, bool) {
+	for i := idx - 1; i >= 0 && i < len(b.Instrs); i-- {
+		switch in := b.Instrs[i].(type) {
+		case *ssa.DebugRef:
+			if !in.IsAddr && identName(in) == name {
+				if v, ok := f.vals[in.X]; ok {
+					return v, true
+				}
+				if _, isConst := in.X.(*ssa.Const); isConst {
+					return f.val(in.X), true
+				}
+			}
+		case *ssa.Phi:
+			if in.Comment == name {
+				if v, ok := f.vals[in]; ok {
+					return v, true
+				}
+			}
+		}
+	}
+	return f.lookupVar(name, b, nil)
+}
+
 func identName(d *ssa.DebugRef) string {
 	if id, ok := d.Expr.(interface{ End() token.Pos }); ok {
 		_ = id
@@ -291,6 +315,7 @@ func (f *frame) run(args []Val, st0 *State) []retInfo {
 		} else {
 			st = c.mergeStates(in)
 			f.evalPhis(b, in)
+			f.afterLoopAsserts(b, st)
 		}
 		// instructions
 		for i, instr := range b.Instrs {
@@ -322,6 +347,49 @@ func (f *frame) run(args []Val, st0 *State) []retInfo {
 		}
 	}
 	return rets
+}
+
+// afterLoopAsserts checks "after loop N: assert e" at the block that all exits of loop N lead to.
+func (f *frame) afterLoopAsserts(b *ssa.BasicBlock, st *State) {
+	if f.spec == nil || len(f.spec.AfterLoop) == 0 || f.c.pass1 {
+		return
+	}
+	for _, h := range f.headers {
+		body := f.loopBody[h]
+		if body[b] || len(b.Preds) == 0 || !strings.HasSuffix(b.Comment, ".done") {
+			continue
+		}
+		all := true
+		for _, p := range b.Preds {
+			if !body[p] {
+				all = false
+			}
+		}
+		if !all {
+			continue
+		}
+		for _, a := range f.spec.AfterLoop {
+			if a.Ordinal != f.loopOrd[h] {
+				continue
+			}
+			f.curBlock, f.curIdx = b, firstNonPhi(b)
+			env := f.hereEnv(st)
+			tags := a.Tags
+			if len(tags) == 0 {
+				tags = f.c.tags
+			}
+			f.c.oblige("assert", fmt.Sprintf("after-loop%d", a.Ordinal), tags, st.reach, env.evalBool(a.Expr), f.pos(b.Instrs[0].Pos()), a.Src)
+		}
+	}
+}
+
+func firstNonPhi(b *ssa.BasicBlock) int {
+	for i, in := range b.Instrs {
+		if _, ok := in.(*ssa.Phi); !ok {
+			return i
+		}
+	}
+	return len(b.Instrs)
 }
 
 func (f *frame) handlePanic(t *ssa.Panic, st *State) {
@@ -444,8 +512,19 @@ func (f *frame) loopSpec(h *ssa.BasicBlock) *LoopSpec {
 
 func (f *frame) loopEnv(h *ssa.BasicBlock, st *State, override map[*ssa.Phi]Val) *Env {
 	c := f.c
-	return &Env{c: c, vars: map[string]Val{}, cur: st, old: c.entry, pkg: f.fn.Pkg.Pkg, guard: st.reach,
+	return &Env{c: c, vars: f.ghostVars(), cur: st, old: c.entry, pkg: f.fn.Pkg.Pkg, guard: st.reach,
 		lookup: func(name string) (Val, bool) { return f.lookupVar(name, h, override) }}
+}
+
+// ghostVars: the ghost parameters of the function under verification (top-level frame only).
+func (f *frame) ghostVars() map[string]Val {
+	m := map[string]Val{}
+	if f.top {
+		for k, v := range f.c.ghosts {
+			m[k] = v
+		}
+	}
+	return m
 }
 
 func (f *frame) enterLoop(h *ssa.BasicBlock, in []edge, measures map[*ssa.BasicBlock][]*Term) *State {
@@ -492,7 +571,7 @@ func (f *frame) enterLoop(h *ssa.BasicBlock, in []edge, measures map[*ssa.BasicB
 		env := f.loopEnv(h, est, override)
 		f.useHints(fmt.Sprintf("loop %d entry", f.loopOrd[h]), env)
 		for k, inv := range ls.Invariants {
-			c.oblige("invariant-entry", fmt.Sprintf("loop%d.%d", f.loopOrd[h], k+1), clauseTags(inv, c.tags), e.cond, env.evalBool(inv.Expr), f.pos(h.Instrs[0].Pos()), inv.Src)
+			c.oblige("invariant-entry", fmt.Sprintf("loop%d.%d", f.loopOrd[h], k+1), c.tags, e.cond, env.evalBool(inv.Expr), f.pos(h.Instrs[0].Pos()), inv.Src)
 		}
 	}
 	// 2. havoc
@@ -583,7 +662,7 @@ func (f *frame) closeLoop(from, h *ssa.BasicBlock, cond *Term, st *State, measur
 	env := f.loopEnv(h, est, override)
 	f.useHints(fmt.Sprintf("loop %d end", f.loopOrd[h]), env)
 	for k, inv := range ls.Invariants {
-		c.oblige("invariant-preserved", fmt.Sprintf("loop%d.%d", f.loopOrd[h], k+1), clauseTags(inv, c.tags), cond, env.evalBool(inv.Expr), f.pos(from.Instrs[len(from.Instrs)-1].Pos()), inv.Src)
+		c.oblige("invariant-preserved", fmt.Sprintf("loop%d.%d", f.loopOrd[h], k+1), c.tags, cond, env.evalBool(inv.Expr), f.pos(from.Instrs[len(from.Instrs)-1].Pos()), inv.Src)
 	}
 	if !ls.NoTerm {
 		if len(ls.Decreases) == 0 {
@@ -697,7 +776,8 @@ func (c *FnCtx) wellFormed(guard *Term, v Val, st *State) {
 				c.assume(guard, And(Ge(off, IntT(0)), Ge(ln, IntT(0)), Ge(cp, ln)))
 				c.assume(guard, Imp(Eq(v.L[i], IntT(0)), And(Eq(ln, IntT(0)), Eq(cp, IntT(0)))))
 			}
-			if _, ok := l.T.Underlying().(*types.Interface); ok {
+			if _, ok := l.T.Underlying().(*types.Pointer); ok && i+1 < len(ls) {
+				c.assume(guard, Imp(Eq(v.L[i], IntT(0)), Eq(v.L[i+1], IntT(0))))
 			}
 		case "map":
 			c.assume(guard, And(Ge(v.L[i], IntT(0)), Lt(v.L[i], alloc)))
@@ -796,6 +876,13 @@ func (f *frame) exec(instr ssa.Instruction, st *State) {
 		return
 	case *ssa.Alloc:
 		et := elemType(t.Type())
+		if arr, ok := et.Underlying().(*types.Array); ok {
+			// arrays are allocated as a run of elements: pointer-to-array = (obj, first index)
+			obj := c.allocObj(st)
+			c.zeroObject(st, arr.Elem(), obj)
+			f.vals[t] = mkPtr(t.Type(), arr.Elem(), 0, obj, IntT(0))
+			return
+		}
 		if !t.Heap && !hasArray(et) {
 			id := sanitize(f.prefix + t.Name() + "_" + t.Comment)
 			p := Val{T: t.Type(), L: []*Term{IntT(-1), IntT(0)}, Fn: &localRef{alloc: t, id: id}}
@@ -836,6 +923,12 @@ func (f *frame) exec(instr ssa.Instruction, st *State) {
 			f.vals[t] = mkPtr(t.Type(), u.Elem(), 0, x.L[0], Add(x.L[1], i))
 		case *types.Pointer:
 			arr := u.Elem().Underlying().(*types.Array)
+			if x.Root != nil && rootKey(x.Root) == rootKey(arr.Elem()) && x.Base == 0 && x.Fn == nil {
+				// array allocated as a run of elements
+				c.oblige("index", "", c.tags, st.reach, And(Le(IntT(0), i), Lt(i, IntT(arr.Len()))), f.pos(t.Pos()), "array index in range")
+				f.vals[t] = mkPtr(t.Type(), arr.Elem(), 0, x.L[0], Add(x.L[1], i))
+				return
+			}
 			n, ok := i.IsConstInt()
 			if !ok {
 				panic(unsupported("symbolic index into array"))
@@ -1052,7 +1145,13 @@ func (f *frame) binop(t *ssa.BinOp, st *State) Val {
 					r = Eq(y.L[0], IntT(0))
 				}
 			} else if _, isPtr := xt.Underlying().(*types.Pointer); isPtr {
-				r = c.ptrEq(x, y)
+				if isZeroConst(t.Y) {
+					r = ptrNil(x)
+				} else if isZeroConst(t.X) {
+					r = ptrNil(y)
+				} else {
+					r = c.ptrEq(x, y)
+				}
 			} else {
 				r = valEq(x, y)
 			}
@@ -1176,6 +1275,13 @@ func (c *FnCtx) structEq(x, y Val, t types.Type) *Term {
 		cs = append(cs, c.structEq(x.sub(fieldOffset(s, i), ft), y.sub(fieldOffset(s, i), ft), ft))
 	}
 	return And(cs...)
+}
+
+func ptrNil(x Val) *Term {
+	if _, ok := x.Fn.(*localRef); ok {
+		return TFalse
+	}
+	return Eq(x.L[0], IntT(0))
 }
 
 func (c *FnCtx) ptrEq(x, y Val) *Term {
@@ -1372,6 +1478,18 @@ func (f *frame) sliceOp(t *ssa.Slice, st *State) Val {
 		}
 		c.oblige("slice", "", c.tags, st.reach, goal, f.pos(t.Pos()), "slice bounds in range")
 		return Val{T: t.Type(), L: []*Term{x.L[0], Add(x.L[1], lo), Sub(hi, lo), Sub(cp, lo)}}
+	}
+	if pt, ok := t.X.Type().Underlying().(*types.Pointer); ok {
+		if arr, ok := pt.Elem().Underlying().(*types.Array); ok && x.Root != nil && rootKey(x.Root) == rootKey(arr.Elem()) && x.Base == 0 && x.Fn == nil {
+			n := IntT(arr.Len())
+			if t.High != nil {
+				hi = f.val(t.High).term()
+			} else {
+				hi = n
+			}
+			c.oblige("slice", "", c.tags, st.reach, And(Le(IntT(0), lo), Le(lo, hi), Le(hi, n)), f.pos(t.Pos()), "array slice bounds in range")
+			return Val{T: t.Type(), L: []*Term{x.L[0], Add(x.L[1], lo), Sub(hi, lo), Sub(n, lo)}}
+		}
 	}
 	panic(unsupported("slice of " + t.X.Type().String()))
 }
